@@ -100,10 +100,16 @@ def canon(v):
     return {"__other__": type(v).__name__}
 
 
-def canon_cfg(ns):
+def canon_cfg(ns, subs=()):
     d = ns.clone().as_dict() if hasattr(ns, "clone") else dict(ns)
     d.pop("cfg", None)
     d.pop("__path__", None)
+    if subs:           # the subcommands dest ("subcommand": name) is bookkeeping that dump() drops; not a link matter
+        d.pop("subcommand", None)
+    for name in subs:  # the subcommands' own --cfg actions
+        if isinstance(d.get(name), dict):
+            d[name].pop("cfg", None)
+            d[name].pop("__path__", None)
     return canon(d)
 
 
@@ -127,18 +133,130 @@ def main():
         orig = la.ActionLink.apply_parsing_links
 
         def hooked(parser, cfg):
-            if parser is state.get("top") and state.get("armed"):
+            # calls made while a config file is being loaded (ActionConfigFile.apply_config: skip_apply_links) return
+            # at once and see only that file's content: they are not the pre-link configuration
+            if parser is state.get("top") and state.get("armed") and not la.apply_config_skip.get():
                 try:
-                    state["pre"] = canon_cfg(cfg)
+                    state["pre"] = canon_cfg(cfg, state.get("subs", ()))
                 except Exception as ex:  # pragma: no cover
                     state["pre"] = {"__other__": "pre:" + type(ex).__name__}
             return orig(parser, cfg)
 
         la.ActionLink.apply_parsing_links = staticmethod(hooked)
-
         tys = {"int": int, "str": str, "list": List[int], "any": Any}
 
+        def populate(p, decls, links, build):
+            p.add_argument("--cfg", action="config")
+            for d in decls:
+                kw = {}
+                if d["kind"] == "class":
+                    kw["type"] = c15mod.Base
+                elif d["kind"] == "classlist":
+                    kw["type"] = List[c15mod.Base]
+                else:
+                    kw["type"] = tys[d["kind"]]
+                if d["required"]:
+                    kw["required"] = True
+                else:
+                    kw["default"] = d["default"]
+                p.add_argument("--" + d["key"], **kw)
+            crash = None
+            for l in links:
+                src = l["src"][0] if len(l["src"]) == 1 and l.get("src_str", True) else tuple(l["src"])
+                fn = None if l["fn"] is None else c15mod.FUNCTIONS[l["fn"]]
+                try:
+                    p.link_arguments(src, l["tgt"], fn)
+                    build.append(0)
+                except ValueError:
+                    build.append(1)
+                except Exception as ex:
+                    build.append(3)
+                    crash = type(ex).__name__ + ": " + str(ex)[:200]
+            return crash
+
+        def render_items(items):
+            out = []
+            for it in items:
+                if it[0] == "opt":
+                    out.append("--%s=%s" % (it[1], render(it[2])))
+                else:
+                    out.append("--cfg=" + json.dumps(it[1]))
+            return out
+
+        def one_tree(case):
+            """top-level parser + two subcommands built from one specification; everything observed through the TOP parser"""
+            sub = case["sub"]
+            subs = ["fit", "test"]
+            obs = {"build": [], "required": [], "pre": None, "parse": None, "dump": None, "reparse": None,
+                   "sub_build": [], "sub_required": []}
+            p = ArgumentParser(exit_on_error=False, default_env=True, env_prefix="APP")
+            crash = populate(p, case["decls"], case["links"], obs["build"])
+            if crash:
+                obs["build_crash"] = crash
+            sc = p.add_subcommands()
+            for name in subs:
+                q = ArgumentParser(exit_on_error=False)
+                b = []
+                crash = populate(q, sub["decls"], sub["links"], b)
+                sc.add_subcommand(name, q)
+                if name == sub["name"]:
+                    obs["sub_build"] = b
+                    obs["sub_required"] = sorted(q.required_args)
+                    if crash:
+                        obs["build_crash"] = crash
+            # the subcommands dest itself is required; it is not a link matter
+            obs["required"] = sorted(k for k in p.required_args if k != "subcommand")
+            env_keys = []
+            for k, v in case["env"]:
+                name = "APP_" + k.replace(".", "__").upper()
+                os.environ[name] = render(v)
+                env_keys.append(name)
+            state["top"] = p
+            state["pre"] = None
+            state["subs"] = subs
+            try:
+                state["armed"] = True
+                if case["mode"] == "object":
+                    r = attempt(lambda: p.parse_object(case["obj"]))
+                else:
+                    argv = render_items(case["argv"]) + [sub["name"]] + render_items(sub["argv"])
+                    r = attempt(lambda: p.parse_args(argv))
+                state["armed"] = False
+                obs["pre"] = state["pre"]
+                if r[0] == "ok":
+                    cfg = r[1]
+                    obs["parse"] = ["ok", canon_cfg(cfg, subs)]
+                    try:
+                        text = p.dump(cfg, format="json", skip_none=False)
+                        obs["dump"] = canon(json.loads(text))
+                    except Exception as ex:
+                        text = None
+                        obs["dump_error"] = type(ex).__name__ + ": " + str(ex)[:300]
+                    if text is not None:
+                        r2 = attempt(lambda: p.parse_args(["--cfg", text]))
+                        obs["reparse"] = ["ok", canon_cfg(r2[1], subs)] if r2[0] == "ok" else r2
+                else:
+                    obs["parse"] = r
+            finally:
+                state["armed"] = False
+                state["subs"] = ()
+                for name in env_keys:
+                    os.environ.pop(name, None)
+            return obs
+
+        def attempt(f):
+            try:
+                return ["ok", f()]
+            except ArgumentError as ex:
+                msg = str(ex)
+                linked = "must be given via" in msg or (msg.startswith("argument ") and " --> " in msg.split(": invalid ")[0] and ": invalid " in msg)
+                return ["linked" if linked else "rejected", msg[:300]]
+            except Exception as ex:
+                return ["crash", type(ex).__name__ + ": " + str(ex)[:300]]
+
         def one(case):
+            if case.get("sub"):
+                return one_tree(case)
             obs = {"build": [], "required": [], "pre": None, "parse": None, "dump": None, "reparse": None}
             p = ArgumentParser(exit_on_error=False, default_env=True, env_prefix="APP")
             p.add_argument("--cfg", action="config")
